@@ -305,6 +305,9 @@ def _update_local_references(rules):
         counter.previsit(node)
         if node.is_reference and counter.is_bound(node.name):
             node.is_local = True
+        mentioned = [x for x in node.mentioned_names() if counter.is_variable(x)]
+        if mentioned:
+            node.local_names = mentioned
 
     visit(rules, previsit, counter.postvisit)
 
